@@ -603,7 +603,10 @@ def rule_copy(ctx, px):
                "" if ok else f"{len(term) if term else '?'} character(s) are cut without checking that the line ends with {term!r}: "
                "the last line of a file without final newline loses its last character", st.lineno)
     ctx.floor(R, n, 2)
-    loops = [x for x in ast.walk(f.node) if isinstance(x, ast.For) and ast.unparse(x.iter) == "line_pps"
+    params = {a.arg for a in f.node.args.args[1:]}
+    loops = [x for x in ast.walk(f.node) if isinstance(x, ast.For) and isinstance(x.iter, ast.Name) and x.iter.id in params
+             and isinstance(x.target, ast.Name)
+             and any(isinstance(c, ast.Call) and isinstance(c.func, ast.Name) and c.func.id == x.target.id for c in ast.walk(x))
              and not any(isinstance(c, ast.Call) and isinstance(c.func, ast.Attribute) and c.func.attr == "reset" for c in ast.walk(x))]
     ok = len(loops) == 1 and not any(isinstance(x, (ast.Break, ast.Continue)) for x in ast.walk(loops[0]))
     ctx.ob(R, f.module.rel, f"{f.short} :: every processor applied in order", ok, "", f.node.lineno)
